@@ -301,7 +301,8 @@ func runKeyDom(c *core.Ctx) {
 	// (1) suppression probes of the registry in Add (directly, or inside a private predicate it calls)
 	var probeKeys []string
 	seenProbe := map[ssa.Instruction]bool{}
-	an.Region(add, a.stop, func(o an.Occ) {
+	// (the insertion helper is looked into as well: the registry test may have been moved there)
+	an.Region(add, func(g *ssa.Function) bool { return !(a.ins != nil && sameFunc(g, a.ins)) && a.stop(g) }, func(o an.Occ) {
 		switch x := o.In.(type) {
 		case *ssa.Call:
 			sc := an.StaticCallee(&x.Call)
